@@ -347,7 +347,7 @@ Section Expand.
                             | 2%nat => cap_all toks
                             | _ => toks end in
                 Ok (st, map (fun t => set_pos_fix t p) toks)
-            | Some None => Exc TypeError          (* value None: for f in mods / for t in toks *)
+            | Some None => Ok (err st (s2l "could not find label for \gls... - did you include ""\LTinput{<main file>.glsdefs}""?") p)
             | None => Ok (err st (s2l "could not find label for \gls... - did you include ""\LTinput{<main file>.glsdefs}""?") p)
             end
         | None => Ok (err st (s2l "could not find label for \gls... - did you include ""\LTinput{<main file>.glsdefs}""?") p)
